@@ -760,6 +760,15 @@ def monitor_prio1(kind):
                     fails.append("Err() yielded error code %d in normal mode" % tr.err)
             elif kind == "C07":
                 fails.append("GracefulStop did not complete although every input was closed and emptied and every item released")
+                v = view[-1]
+                if not v["uncertain"] and v["reg_after"]:
+                    psr = sorted(v["reg_after"], reverse=True)
+                    shr = ref_shares(psr, 0 if m["divider"] == "Fair" else 1, H)
+                    if any(shr.get(p, 0) == 0 for p in psr):
+                        return [("GracefulStop never completes although every input is closed and empty and nothing is in flight: "
+                                 "priorities %s have a zero share (shares %s) [%s H=%d inputs=%s]" % (
+                                     sorted(p for p in psr if shr.get(p, 0) == 0), shr, m["divider"], H, m["cfg"]),
+                                 "prio1-zero-share-graceful:%s:H=%d:%s" % (m["divider"], H, psr))]
         if kind == "C16" and m["stop"]:
             if tr.done != 1:
                 fails.append("%s did not take effect: the discipline has not terminated" % m["stop"])
@@ -829,6 +838,23 @@ def d4_witness():
     meta = {"divider": "Rate", "H": 1, "ocap": 1, "cfg": cfg, "ops": ops, "style": "d4-witness", "fault": False, "stop": "cancel-cleanup", "nput": 2}
     meta["stop"] = None
     return Scenario(enc, "known-finding-witness", meta, nontrivial=True, version="v1")
+
+
+def d4_graceful_witness():
+    """known finding (same root cause as D4): with a zero share GracefulStop never completes although every input is closed and empty"""
+    cfg = [(3, 0), (2, 1), (1, 2)]
+    ops = [(2, 0, 0, True), (2, 1, 0, True), (2, 2, 0, True), (10, 0, 0, True), (3, 0, 0, True), (3, 0, 0, True)]
+    enc = enc_prio1(1, 1, 1, cfg, ops)
+    meta = {"divider": "Rate", "H": 1, "ocap": 1, "cfg": cfg, "ops": ops, "style": "d4-graceful-witness", "fault": False, "stop": None, "nput": 0}
+    return Scenario(enc, "known-finding-witness", meta, nontrivial=True, version="v1")
+
+
+def prio1_generate_with_witness(witness, fault_share=0.0, stop_share=0.0, styles=None):
+    gen = prio1_generate(fault_share, stop_share, styles)
+
+    def generate(rng, tier):
+        return [witness()] + gen(rng, tier)
+    return generate
 
 
 def prio1_progress_generate():
